@@ -208,7 +208,9 @@ func checkC01(c *Ctx, w *World) {
 					return false
 				}
 				n++
-				return originsAll(call.Call.Args[0], func(o Origin) bool { return o.Kind == "const" || o.Kind == "zero" || isCallOrigin(o, ".GetAffinityKey") })
+				return originsAll(call.Call.Args[0], func(o Origin) bool {
+					return o.Kind == "const" || o.Kind == "zero" || isCallOrigin(o, ".GetAffinityKey")
+				})
 			})
 			return all && n > 0
 		}
